@@ -1366,11 +1366,23 @@ class Nexus(object):
             )
 
         # add dependent node `name` as a parent of each node in `depends_on`
+        _children_before = list(_node.get_children())
+        _added = []
         for _dep in depends_on:
-            _node.add_child(self.get(_dep))
+            _dep_node = self.get(_dep)
+            if not any(_c is _dep_node for _c in _children_before + _added):
+                _added.append(_dep_node)
+            _node.add_child(_dep_node)
 
         # check for cycles
-        NodeCycleChecker(_node).run()
+        try:
+            NodeCycleChecker(_node).run()
+        except ValueError:
+            # leave the graph as it was before the rejected call
+            for _dep_node in _added:
+                _node.remove_child(_dep_node)
+            _node._children = _children_before
+            raise
 
     def get(self, node_name):
         """Retrieve a node by its name or ``None`` if no such node exists.
